@@ -1155,7 +1155,11 @@ func (m *Machine) Remove(states S, args A) Result {
 		statesAny = append(statesAny, S{name})
 	}
 
-	if lenQueue == 0 && m.Transition() != nil && !m.Any(statesAny...) {
+	// (only while a Remove is running: an Add or a Set in flight may be about to
+	// activate one of them)
+	if t := m.Transition(); lenQueue == 0 && t != nil &&
+		t.Mutation.Type == MutationRemove && !m.Any(statesAny...) {
+
 		m.queueMx.RUnlock()
 		return Executed
 	}
@@ -3379,7 +3383,11 @@ func (m *Machine) EvRemove(event *Event, states S, args A) Result {
 		statesAny = append(statesAny, S{name})
 	}
 
-	if lenQueue == 0 && m.Transition() != nil && !m.Any(statesAny...) {
+	// (only while a Remove is running: an Add or a Set in flight may be about to
+	// activate one of them)
+	if t := m.Transition(); lenQueue == 0 && t != nil &&
+		t.Mutation.Type == MutationRemove && !m.Any(statesAny...) {
+
 		m.queueMx.RUnlock()
 		return Executed
 	}
